@@ -81,6 +81,46 @@ CLAIMED = {
                 note="Trusted: the environment contract in vf/stubs/wfs.py (validated against a real temp directory), CrossHair, z3. A kill inside one "
                      "write() call, fsync ordering, >1 fault, >2 writers and BSP.save's own body are outside.",
                 technique=_E1 + "; crash/fault positions and the schedule are solver variables"),
+    "C01": dict(engine="chx", category="model_checking",
+                text="10 concrete tree skeletons with one (or two) symbolic string slots at exact lengths 0..2 (3 thorough) over all code points, symbolic "
+                     "space/TAB indent and start_indent, symbolic indent_braces, root and non-root trees; delivery as pieces, re-cut pieces, joined str, file "
+                     "object; the path tree of serialise + parse is exhausted and shape, order, real names and values compared; output independent of the "
+                     "options up to whitespace outside quotes.",
+                note="Trusted: CrossHair, z3, stubs (intern identity, BARE_DISALLOWED tuple, casefold fast path). Longer strings, >2 simultaneous symbolic slots, "
+                     "deeper/wider trees, names with CR/LF, non-default parse options, export() and the Cython tokenizer are outside.",
+                technique=_E1),
+    "C06": dict(engine="chx", category="model_checking",
+                text="Export -> parse -> export of every VMF object kind (outputs, entities with fixups, solids/faces, displacements, groups, visgroups, "
+                     "cordons, cameras, Strata data) and of three skeleton maps (preserve_ids on/off with a renumbering oracle, minimal, disp_multiblend) is a "
+                     "fixed point and every field re-reads equal, for one symbolic string leaf of length <= 1 (2 thorough) at a time, all booleans symbolic, "
+                     "ids/ints/enum members from short lists; numeric fields are compared against the originals on concrete awkward constants.",
+                note="Trusted: CrossHair, z3, float()/int() shims on de-proxied text, real array.array. The float continuum, symbolic keys/fixup names (hashed), "
+                     "displacement power 3-4 and the tests/ .vmf corpus are outside.",
+                technique=_E1),
+    "C10": dict(engine="chx", category="model_checking",
+                text="A synthesised one-face BSP (6 header kinds, 3 file layouts, with/without LZMA lumps) is read, an ordered subset of up to 2 (3 thorough) "
+                     "views inside five interaction clusters is looked at, saved and re-read under symbolic execution: header integers, lump versions, "
+                     "game-lump flags/versions and small raw payloads are solver variables; header, view-less lumps byte-identical, parsed views equal, second "
+                     "save byte-identical. The subset/order part is enumeration by symbolic index.",
+                note="Trusted: CrossHair, z3, PieceFile/CellStruct models (vf/stubs/bspio.py, self-tested); real struct/lzma on concrete data. One synthesised map; "
+                     "cross-cluster subsets, larger maps, symbolic LZMA data, pakfile view, Chaos/Vitamin layouts are outside.",
+                technique=_E1),
+    "C14": dict(engine="chx", category="model_checking",
+                text="11 graph shapes (sharing, self-reference, cycles, NULL, stubs) x 9 encodings (binary v1-5, KV2 nested/flat x cull_uuid) x 3 unicode modes, "
+                     "hostile strings in 8 slots, 14 value types x scalar/array shapes, symbolic int32/bool/colour/blob wire values, and the KV1 bridge are "
+                     "exported and re-parsed; graphs are compared with a two-way identity-map walk and binary output by an independent decoder. Everything "
+                     "the exporters hash is chosen by symbolic index (enumeration, stated). Two open known findings.",
+                note="Trusted: CrossHair, z3, binio models, the independent decoder in vf/props/c14.py. float32 rounding / 6-decimal clause beyond exact constants, "
+                     "NUL in strings, graphs > 4 elements, binary version 0 are outside.",
+                technique=_E1),
+    "C17": dict(engine="symx+chx", category="other",
+                text="Geometry: the real Vec/UVAxis/Side/Solid.localise and collapse_one run on symbolic reals (rotation = SDK matrix of trig symbols) and z3 "
+                     "proves p' = p.M + o, rotated axes, texture lock, displacement data, template unchanged after every collapse, equal copies for equal "
+                     "placements - for ALL reals. Names/fixups/histories: symbolic entity and instance names, $variable values through the real regex "
+                     "callback, two-template collapse histories in both orders compared with an oracle; termination on all 16 two-file inclusion graphs.",
+                note="Trusted: z3 nlsat, vf/symx.py, CrossHair, 'every rotation has Euler angles'. IEEE rounding, float<->text conversion, visgroup modes, "
+                     "pitch/yaw special keys and Manifest are outside.",
+                technique="real code on z3 Real terms (validity queries, staged lemmas) for geometry; CrossHair symbolic execution for names, fixups and histories"),
 }
 _TODO = "check not built yet in this round (planned: see DESIGN.md section 3)"
 NOT_APPLICABLE = {f"C{i:02d}": _TODO for i in range(1, 21) if f"C{i:02d}" not in CLAIMED}
